@@ -23,6 +23,7 @@ import (
 	"strings"
 	"sync"
 	"sync/atomic"
+	"syscall"
 
 	"github.com/notaryproject/notation-go/dir"
 	"github.com/notaryproject/notation-go/verifharness/lib"
@@ -130,6 +131,7 @@ func main() {
 	names := []nm{{"s", true, true}, {"store-1", true, true}, {"s.t-o_r", true, true}, {".hidden", true, true}, {"A_b.crt", true, true},
 		{".", false, true}, {"..", false, true}, {"", false, true}, {"a/b", false, true}, {"a\\b", false, true}, {"../s", false, true}, {"s/..", false, true}, {"/abs", false, true}, {"s/", false, true},
 		{"\u212aelvin.Store_1", false, true}, {"\u017ftore", false, true}, {"st\u00f6re", false, true}, // (KELVIN SIGN, LONG S: they fold to k and s; a plain name is ASCII letters, digits, _ . -)
+		{" s", false, true}, {"s ", false, true}, {"s\n", false, true}, {"\ts", false, true}, {"\u00a0s", false, true}, {" store-1 ", false, true}, // (surrounding white space is part of the name)
 		{strings.Repeat("a", 300), false, true}, {strings.Repeat("long.name-", 30), false, true}, // (longer than a file name can be: such a store cannot exist; still an error, not a crash)
 		{"...", true, false}}
 
@@ -185,6 +187,11 @@ func main() {
 			want = t.valid && nmv.valid
 			if !want {
 				// make the path the name would lexically resolve to loadable, so that a weakened check is visible
+				if tn := strings.TrimSpace(nmv.s); tn != nmv.s && tn != "" && t.valid {
+					// ... and the store a TRIMMED name would resolve to
+					os.MkdirAll(filepath.Join(x509dir, t.s, tn), 0o755)
+					os.WriteFile(filepath.Join(x509dir, t.s, tn, "r.crt"), root.Cert.Raw, 0o644)
+				}
 				if t.valid || (t.s != "" && !strings.ContainsAny(t.s, "/\\.")) { // also for a type spelled in another case: a directory spelled exactly that way
 					p := filepath.Join(x509dir, t.s, nmv.s)
 					if rel, err := filepath.Rel(base, p); err == nil && len(rel) > 0 && rel[0] != '.' {
@@ -239,7 +246,7 @@ func main() {
 					var e entry
 					bad := !clean && rng.Intn(3) == 0
 					if bad {
-						e.Kind = []string{"garbage", "empty", "subdir", "symlink", "dangling"}[rng.Intn(5)]
+						e.Kind = []string{"garbage", "empty", "subdir", "symlink", "dangling", "socket", "chardev"}[rng.Intn(7)]
 					} else {
 						e.Kind = "certs"
 					}
@@ -264,6 +271,21 @@ func main() {
 						want = false
 					case "dangling":
 						os.Symlink(filepath.Join(base, "does-not-exist"), fn)
+						want = false
+					case "socket", "chardev":
+						// an entry that is no regular file (a socket an agent left behind, a device node - here a copy of
+						// /dev/null): "every entry a regular file", or the load fails as a whole
+						if e.Kind == "socket" {
+							syscall.Mknod(fn, syscall.S_IFSOCK|0o644, 0)
+						} else {
+							syscall.Mknod(fn, syscall.S_IFCHR|0o644, 1<<8|3)
+						}
+						if st, err := os.Lstat(fn); err != nil || st.Mode().IsRegular() {
+							os.Remove(fn) // (not permitted here: the entry simply does not exist)
+							e.Kind = "special-file-not-created"
+							break
+						}
+						r.Event("stores-with-a-special-file")
 						want = false
 					default:
 						k := 1 + rng.Intn(3)
